@@ -515,3 +515,46 @@ def gen_deep(prop, seed, tier):
                                     force=dict(cap=caps[i], order="desc", pattern="top")))
         out.append(gen_deep_history(f"deep.m{i}", rng, prop, "large"))
     return out
+
+
+# ---------------------------------------------------------------------------- C03 systematic sweep
+def gen_c03_sweep(seed):
+    """fixed multi-leaf maps with gaps x all 9 bound-kind pairs x ALL endpoint pairs over the key
+    universe plus out-of-range sentinels; every chain position x index x end bound for
+    new_from_position_with_bounds. No state dumps (dump=10^6): only outputs are compared."""
+    rng = random.Random(f"C03-sweep-{seed}")
+    out = []
+    builds = [(4, list(range(1, 32, 2)), [5, 17]), (5, list(range(0, 45, 3)), [9, 12, 30]), (7, list(range(10, 70, 4)), [])]
+    for bi, (cap, keys, dels) in enumerate(builds):
+        lo_u, hi_u = min(keys) - 2, max(keys) + 2
+        pts = list(range(lo_u, hi_u + 1))
+        if len(pts) > 36:
+            pts = sorted(set(rng.sample(pts, 30) + [lo_u, lo_u + 1, hi_u - 1, hi_u] + keys[:3] + keys[-3:]))
+        chunks = [pts[i::4] for i in range(4)]
+        for ci, los in enumerate(chunks):
+            h = Hist(f"c03sw{bi}.{ci}", "rust", cap)
+            h.lines[0] += " dump=1000000"
+            for k in keys:
+                h.add(f"I {k} {h.sid} {h.sid * 10}")
+                h.sid += 1
+            for k in dels:
+                h.add(f"R {k}")
+            for lo in los:
+                for hi in pts:
+                    for lk in KINDS:
+                        for hk in KINDS:
+                            if (lk == "U" and lo != los[0]) or (hk == "U" and hi != pts[0]):
+                                continue
+                            h.add(f"RG {lk} {lo} {hk} {hi}")
+                h.add(f"IR {lo} -")
+                h.add(f"IR - {lo}")
+                for hi in pts[::3]:
+                    h.add(f"IR {lo} {hi}")
+            if ci == 0:
+                for pos in range(0, 12):
+                    for idx in range(0, cap + 2):
+                        for ek in KINDS:
+                            for e in pts[::2] if ek != "U" else [0]:
+                                h.add(f"FP {pos} {idx} {ek} {e}")
+            out.append(h)
+    return out
